@@ -32,6 +32,19 @@ Proof. exact domain_adm_tsc_lemma. Qed.
 Print Assumptions domain_admissible_tsc.
 
 (* without an offset two cells per axis suffice *)
+(* ... and for ANY sub-cell offset, negative ones included (|offset| < one cell along every axis): a particle within
+   |offset| of the lower face has grid coordinate in (-1, 0), its nearest cell is -1 or 0 and the cloud {-2,-1,0} is
+   reached through numba's negative-index wrap *)
+Theorem domain_admissible_tsc_signed_offset : forall box off n0 n1 n2 x y z w,
+  (0 < box)%Q -> 3 <= n0 -> 3 <= n1 -> 3 <= n2 ->
+  (- box < off * inject_Z n0)%Q /\ (off * inject_Z n0 < box)%Q ->
+  (- box < off * inject_Z n1)%Q /\ (off * inject_Z n1 < box)%Q ->
+  (- box < off * inject_Z n2)%Q /\ (off * inject_Z n2 < box)%Q ->
+  (0 <= x)%Q /\ (x <= box)%Q -> (0 <= y)%Q /\ (y <= box)%Q -> (0 <= z)%Q /\ (z <= box)%Q ->
+  adm TSC box off n0 n1 n2 (x, y, z, w).
+Proof. exact domain_adm_tsc_signed_lemma. Qed.
+Print Assumptions domain_admissible_tsc_signed_offset.
+
 Theorem domain_admissible_tsc_no_offset : forall box n0 n1 n2 x y z w,
   (0 < box)%Q -> 2 <= n0 -> 2 <= n1 -> 2 <= n2 ->
   (0 <= x)%Q /\ (x <= box)%Q -> (0 <= y)%Q /\ (y <= box)%Q -> (0 <= z)%Q /\ (z <= box)%Q ->
